@@ -465,7 +465,14 @@ func (s *txShards) history(ivS int64, sameSeg bool, creates, lookups int) {
 		anchor, flen = txDate(2020+rng.Intn(5), 1, 1, 0, 0, 0, 0), 30*txDay
 	}
 	span := int64(10)
-	pick := func() int64 { return anchor + (rng.Int63n(2*span)-span)*flen + rng.Int63n(flen) }
+	pick := func() int64 {
+		t := anchor + (rng.Int63n(2*span)-span)*flen + rng.Int63n(flen)
+		if rng.Intn(4) == 0 {
+			// an instant in the FIRST family of its segment
+			t = c.CalcSegmentTime(t) + rng.Int63n(flen)
+		}
+		return t
+	}
 	done := 0
 	for i := 0; i < creates+lookups; i++ {
 		if done < 2 || (rng.Intn(creates+lookups) < creates) {
@@ -480,6 +487,13 @@ func (s *txShards) history(ivS int64, sameSeg bool, creates, lookups int) {
 		}
 		if rng.Intn(5) == 0 {
 			b = a + rng.Int63n(flen)
+		}
+		// range limits exactly on a segment base time (the end of a range is inclusive: the start of the last slot)
+		if rng.Intn(4) == 0 && c.CalcSegmentTime(b) >= a {
+			b = c.CalcSegmentTime(b)
+		}
+		if rng.Intn(8) == 0 {
+			a = c.CalcSegmentTime(a)
 		}
 		if sameSeg && c.GetSegment(a) != c.GetSegment(b) {
 			// keep the range inside the segment of a: cut it at the segment's last millisecond
